@@ -85,7 +85,7 @@ func vcNames(img bufimage.Image) map[string]bool {
 func TestVerifReplayC12(t *testing.T) {
 	found := 0
 	report := func(format string, a ...any) {
-		if found < 6 {
+		if found < 40 {
 			fmt.Printf("VERIF-REPLAY FAILING-INPUT "+format+"\n", a...)
 		}
 		found++
